@@ -52,6 +52,8 @@ type Target struct {
 	paths []string // the files of FDSet, in order
 	file  protoreflect.FileDescriptor
 	exts  *protoregistry.Types
+	// the generated extension descriptors by the Go type of the extended message (see extsByGoType)
+	extsOfType map[reflect.Type][]ExtVar
 }
 
 // ExtVar: a generated proto2 extension descriptor variable (E_…)
@@ -673,14 +675,17 @@ func refBytes(m proto.Message) []byte {
 
 // tweak applies Go-level representation changes that do not change the message's meaning:
 // nil slices/maps become empty non-nil ones.
-func tweak(r *prng.Rng, v reflect.Value, depth int) {
+func tweak(r *prng.Rng, v reflect.Value, depth int) { tweakP(r, v, depth, false) }
+
+// tweakP: always — EVERY nil slice / map (at every depth reached) becomes an empty non-nil one, not one in three.
+func tweakP(r *prng.Rng, v reflect.Value, depth int, always bool) {
 	if depth > 3 {
 		return
 	}
 	switch v.Kind() {
 	case reflect.Ptr:
 		if !v.IsNil() && v.Elem().Kind() == reflect.Struct {
-			tweak(r, v.Elem(), depth)
+			tweakP(r, v.Elem(), depth, always)
 		}
 	case reflect.Struct:
 		for i := 0; i < v.NumField(); i++ {
@@ -694,24 +699,31 @@ func tweak(r *prng.Rng, v reflect.Value, depth int) {
 				if f.Type().Elem().Kind() == reflect.Uint8 {
 					// a bytes field with explicit presence: nil and empty differ in meaning; without presence
 					// (proto3) a non-nil empty slice is the same contents as nil
-					if implicitBytes(sf) && f.Len() == 0 && r.Chance(1, 2) && f.CanSet() {
+					if implicitBytes(sf) && f.Len() == 0 && (always || r.Chance(1, 2)) && f.CanSet() {
 						f.Set(reflect.MakeSlice(f.Type(), 0, 4))
 					}
 					continue
 				}
-				if f.IsNil() && r.Chance(1, 3) && f.CanSet() {
+				if f.IsNil() && (always || r.Chance(1, 3)) && f.CanSet() {
 					f.Set(reflect.MakeSlice(f.Type(), 0, 0))
 				} else {
 					for j := 0; j < f.Len(); j++ {
-						tweak(r, f.Index(j), depth+1)
+						tweakP(r, f.Index(j), depth+1, always)
 					}
 				}
 			case reflect.Map:
-				if f.IsNil() && r.Chance(1, 3) && f.CanSet() {
+				if f.IsNil() && (always || r.Chance(1, 3)) && f.CanSet() {
 					f.Set(reflect.MakeMap(f.Type()))
+				} else if f.Type().Elem().Kind() == reflect.Ptr {
+					// the messages held as map values
+					keys := f.MapKeys()
+					sort.Slice(keys, func(a, b int) bool { return fmt.Sprint(keys[a].Interface()) < fmt.Sprint(keys[b].Interface()) })
+					for _, k := range keys {
+						tweakP(r, f.MapIndex(k), depth+1, always)
+					}
 				}
 			case reflect.Ptr:
-				tweak(r, f, depth+1)
+				tweakP(r, f, depth+1, always)
 			}
 		}
 	}
